@@ -45,3 +45,20 @@ Example C12_example :
   Qlist_eqb (probas_zero_one (1#1000) [12#10; -(3#10); 1#10]) [999#1100; 1#1100; 100#1100] = true /\
   argmax (probas_zero_one (1#1000) [12#10; -(3#10); 1#10]) = 0%nat.
 Proof. vm_compute. split; reflexivity. Qed.
+
+(* ---------- rows far from all training data: quantitative form of "equal the training class frequencies" ---------- *)
+From Coq Require Import Qabs.
+Require Import XV.Proofs.FarRows.
+(* prevalence decoding is affine: the zero prediction decodes to the prior column of the decoder matrix, and a raw prediction with entries bounded by delta
+   (|sum_i alpha_i K(x, c_i)| <= W * max_i K(x, c_i), which tends to 0 for far rows) decodes, AFTER clamping to [eps, 1-eps] and renormalising, to within
+   2 (K-1) B delta / eps of the decoded prior, where B bounds the entries of the decoder matrix *)
+Theorem C12_far_rows_decode_near_the_prior : forall eps invA num delta B,
+  0 < eps -> eps <= 1 # 2 -> Forall (fun row => length row = S (length num)) invA ->
+  (forall j, Qabs (nth j num 0) <= delta) -> (forall i j, Qabs (nth j (nth i invA []) 0) <= B) -> 0 <= delta -> 0 <= B ->
+  forall i, (i < length invA)%nat ->
+  Qabs (nth i (probas_prevalence eps invA num) 0 - nth i (probas_prior eps (length num) invA) 0) <= 2 * (inject_Z (Z.of_nat (length num)) * B * delta) / eps.
+Proof. exact probas_prevalence_near_prior. Qed.
+Theorem C12_zero_prediction_decodes_to_the_prior : forall invA k, Forall (fun row => length row = S k) invA -> forall i, (i < length invA)%nat ->
+  nth i (raw_prevalence invA (repeat 0 k)) 0 == nth k (nth i invA []) 0.
+Proof. exact raw_prevalence_zero. Qed.
+Print Assumptions C12_far_rows_decode_near_the_prior.
